@@ -121,21 +121,29 @@ pub assume_specification<T>[std::iter::once](v: T) -> (r: std::iter::Once<T>)
     ensures once_val(r) == v;
 
 pub trait CallerAddrs: Sized {
+    #[verifier::prophetic]
     spec fn addrs(self) -> vstd::set::Set<Address>;
 }
 impl<'a> CallerAddrs for std::iter::Once<&'a Address> {
+    #[verifier::prophetic]
     open spec fn addrs(self) -> vstd::set::Set<Address> { set![*once_val(self)] }
 }
 impl<'a, const N: usize> CallerAddrs for &'a [Address; N] {
+    #[verifier::prophetic]
     open spec fn addrs(self) -> vstd::set::Set<Address> { self@.to_set() }
 }
 impl<'a> CallerAddrs for &'a Vec<Address> {
+    #[verifier::prophetic]
     open spec fn addrs(self) -> vstd::set::Set<Address> { self@.to_set() }
 }
 impl<'a> CallerAddrs for std::slice::Iter<'a, Address> {
-    uninterp spec fn addrs(self) -> vstd::set::Set<Address>;
+    #[verifier::prophetic]
+    open spec fn addrs(self) -> vstd::set::Set<Address> {
+        vstd::std_specs::iter::IteratorSpec::remaining(&self).map_values(|x: &Address| *x).to_set()
+    }
 }
 impl<'a, A: CallerAddrs, B: CallerAddrs> CallerAddrs for std::iter::Chain<A, B> {
+    #[verifier::prophetic]
     uninterp spec fn addrs(self) -> vstd::set::Set<Address>;
 }
 pub trait CallerTypes: Sized {
